@@ -291,11 +291,11 @@ class SSHConfig:
         for host_entry in hosts.keys():
             host_list = host_entry.split()
             for host_pattern in host_list:
-                # replace periods with literal period
+                # escape everything that is special in a regex (periods, brackets, plus, ...)
                 # replace asterisk (match 0 or more things) with appropriate regex
                 # replace question mark (match one thing) with appropriate regex
                 cleaned_host_pattern = (
-                    host_pattern.replace(".", r"\.").replace("*", r"(.*)").replace("?", r"(.)")
+                    re.escape(host_pattern).replace(r"\*", r"(.*)").replace(r"\?", r"(.)")
                 )
                 # compile with case insensitive
                 search_pattern = re.compile(cleaned_host_pattern, flags=re.I)
